@@ -45,12 +45,14 @@ def gen_case(rng):
                     st = 1 if t in broken else 0
                 edits.append('%d=%d' % (num[t], st))
             rounds.append('.'.join(edits))
+    # a quarter of the runs are ended by the harness at a random moment (termination while builds run: cancellation)
+    term = str(rng.choice([0, 3, 8, 15, 30, 60, 120])) if rng.random() < 0.25 else ''
     return {'family': fam, 'watch': '1' if watch else '0', 'roots': ','.join(str(num[r]) for r in roots), 'targets': targets,
-            'failing': ','.join(str(num[t]) for t in fail) or '-', 'rounds': '/'.join(rounds) or '-'}
+            'failing': ','.join(str(num[t]) for t in fail) or '-', 'rounds': '/'.join(rounds) or '-', 'term': term}
 
 
 def case_line(cid, c):
-    return 'V %s %s %s %s %s %s' % (cid, c['watch'], c['roots'], c['targets'], c['failing'], c['rounds'])
+    return ('V %s %s %s %s %s %s %s' % (cid, c['watch'], c['roots'], c['targets'], c['failing'], c['rounds'], c.get('term', ''))).rstrip()
 
 
 def run(ck, n_cases, shards=8):
@@ -78,15 +80,16 @@ def run(ck, n_cases, shards=8):
     with open(mf, 'w') as f:
         for cid in ids:
             r = impl.get(cid, '')
-            parts = dict(p.split('=', 1) for p in r.split(' ') if '=' in p and p[:2] in ('st', 'E=', 'O='))
+            parts = dict(p.split('=', 1) for p in r.split(' ') if '=' in p and p[:2] in ('st', 'co', 'E=', 'O='))
             if 'O' not in parts or 'E' not in parts:
                 continue
-            f.write('%s %s %s %s\n' % (case_line(cid, cases[cid]), parts.get('status', '?'), parts['E'][1:-1] or '-',
-                                       parts['O'][1:-1] or '-'))
+            f.write('%s %s %s %s %s\n' % (case_line(cid, cases[cid]), parts.get('status', '?'), parts.get('consumed', '0'),
+                                          parts['E'][1:-1] or '-', parts['O'][1:-1] or '-'))
     model = vf.by_id(vf.run_model('evflow', mf))
     ck.rule('evflow: the real engine (engine::run + real actors + real watchers + real scripts), one-shot and WATCH mode, on '
             'generated graphs (<= 10 targets, every family); in watch mode the harness rewrites the builds\' declared input files '
-            'atomically in 1-3 rounds (breaking and repairing builds), waits for the flow to go quiet, then terminates; hooks H7 '
+            'atomically in 1-3 rounds (breaking and repairing builds), waits for the flow to go quiet, then terminates (a quarter of the '
+            'runs are instead terminated at a random moment, builds in progress being cancelled); hooks H7 '
             'record every event each real actor consumes, the interposed relay every message; every actor is replayed with '
             'Actor.actor_step on exactly its events: what it sent must be what the model sends (order across steps fixed, '
             'within a step free), every event must be possible in the model state, and what each actor consumed from each '
@@ -102,11 +105,15 @@ def run(ck, n_cases, shards=8):
         ninv = r.count('@I;') + r.count('@I]')
         nskip = r.count('@D:S')
         nfail = r.count('@D:F')
-        ck.count(('evflow', c['watch'], c['roots'], c['targets'], c['failing'], c['rounds']),
+        ck.count(('evflow', c['watch'], c['roots'], c['targets'], c['failing'], c['rounds'], c.get('term', '')),
                  nontrivial=(ninv > 0) if c['watch'] == '1' and c['rounds'] != '-' else ('O=[]' not in r),
                  sample={'watch': c['watch'], 'targets': c['targets'], 'requested': c['roots'], 'failing': c['failing'],
-                         'rounds': c['rounds'], 'logged': r[:400]})
+                         'rounds': c['rounds'], 'terminated_after_ms': c.get('term') or None, 'logged': r[:400]})
         ck.tally('evflow:mode=' + ('watch' if c['watch'] == '1' else 'one-shot'))
+        if c.get('term'):
+            ck.tally('evflow:ended-by-the-harness-mid-run')
+        if '@D:X' in r:
+            ck.tally('evflow:with-cancelled-build')
         ck.tally('evflow:family=' + c['family'])
         ck.tally('evflow:change-notices=' + ('0' if ninv == 0 else '1-2' if ninv <= 2 else '3+'))
         if nskip:
